@@ -11,7 +11,8 @@ THEOREM_NAMES = ["parse_print_tokens", "parse_print_tokens_one", "vanilla_rows_o
                  "nv_parse_print", "reids_parse_print", "text_binary_text", "nv_text_binary_text",
                  "reids_text_binary_text", "vanilla_text_binary_text_partial",
                  "vanilla_text_binary_text_counterexample", "tokeniser_bridge", "src_syms_ok",
-                 "printed_line_tokenises", "source_line_text_roundtrip"]
+                 "printed_line_tokenises", "source_line_text_roundtrip", "observe_id",
+                 "print_depends_on_current_values", "parse_print_after_update"]
 THEOREMS = [(M_, "NQ.C17." + n) for n in THEOREM_NAMES]
 TRANSLATORS = ["instr_table", "asm_tables"]
 LEVEL_TEXT = ('Lean theorems at CHARACTER level: parse_print — for every flavour table and every list of instructions '
@@ -58,7 +59,10 @@ def run(ctx):
     res = Result()
     res.rule = ("every class of every flavour x boundary operand valuations (0, 1, max, min, negative, walking "
                 "values, entries/slices with every register bank) x 3 flavours: printed string and parse result; "
-                "whole random subroutines: text -> objects -> binary -> objects -> text; malformed stream: "
+                "whole random subroutines: text -> objects -> binary -> objects -> text; object histories: instructions "
+                "printed (str/debug_str/str(subroutine)), updated in place (field assignment, property setters line/"
+                "qreg/angle_num/..., instantiate, NV transpiler re-targeting branches) and printed again, judged "
+                "against the current object; malformed stream: "
                 "single/double edits of printed lines (deleted/inserted characters, doubled spaces, swapped/"
                 "dropped/added operands, wrong/unknown/other-flavour mnemonics, literals in register slots, "
                 "integer indices, bracket damage), alone or embedded in programs. Non-trivial = some operand "
@@ -156,6 +160,116 @@ def run(ctx):
                     kf = "F1"
             res.failures.append({"what": "text -> binary -> text is not stable", "kf": kf,
                                  "input": {"fl": fname, "lines": lines, "detail": bad}})
+
+    # -------------------------------------------------- stream H: object histories
+    # an instruction object is printed (str / debug_str), its operands are updated in place (field
+    # assignment or a property setter such as line, qreg, angle_num), it is printed again: the text must
+    # parse to the instruction as it is NOW
+    import copy
+    from netqasm.lang.instr import core as _core
+    jmp = _core.JmpInstruction(imm=op.Immediate(3))
+    hists = [("vanilla", jmp, [({"u": "obs"}, ("obs",)),
+                               ({"u": "set", "k": 0, "o": {"i": -7}}, ("set", "line", op.Immediate(-7))),
+                               ({"u": "obs"}, ("obs",))], "hist:C17_4-witness")]
+    n_hist = 12000 if thorough else 2500
+    for _ in range(n_hist):
+        fname, inst = rng.choice(cases)
+        inst = copy.copy(inst)
+        hists.append((fname, inst, X.gen_instr_history(inst, rng, rng.randrange(1, 7)), "hist:instr"))
+    hm = ctx.driver.batch([{"op": "text.hist", "fl": f, "i": H.instr_to_json(i), "us": [u for u, _ in st]}
+                           for f, i, st, _ in hists])
+    for (fname, inst, steps, tag), mh in zip(hists, hm):
+        res.evaluations += 1
+        res.count(tag)
+        start = H.instr_to_json(inst)
+        res.nontrivial.add(("hist", fname, json.dumps([start, [u for u, _ in steps]], sort_keys=True)))
+        bad = None
+        for k, (u, act) in enumerate(steps):
+            X.apply_instr(inst, act, k)
+            if act[0] == "set":
+                res.count("hist-set-via:" + ("field" if act[1] in [f.name for f in H.T.operand_fields(type(inst))]
+                                             else act[1]))
+            if act[0] == "obs" and bad is None:
+                bad = X.own_text_ok(fname, inst)
+                if bad is not None:
+                    bad["after_steps"] = k + 1
+        if bad is None:
+            bad = X.own_text_ok(fname, inst)
+        cur, text = H.instr_to_json(inst), X.real_print(inst)
+        if mh.get("i") != cur or mh.get("s") != text:
+            res.disagreements.append({"stream": "text.history",
+                                      "input": {"fl": fname, "start": start, "updates": [u for u, _ in steps]},
+                                      "model": mh, "code": {"i": cur, "s": text}})
+        if bad is not None:
+            res.failures.append({"what": "after in-place updates the printed text does not parse to the current "
+                                         "instruction", "kf": None,
+                                 "input": {"fl": fname, "start": start,
+                                           "updates": [dict(u, via=a[1]) if a[0] == "set" else u for u, a in steps],
+                                           "detail": bad}})
+        if tag.endswith("witness"):
+            res.samples.append({"fl": fname, "start": start, "updates": [u for u, _ in steps], "text": text})
+
+    # whole subroutines: str(sub), then in-place edits / instantiate / NV transpilation (re-targets
+    # branches in place), then every printed line must parse to the current instruction and
+    # text -> binary -> text must be stable
+    from netqasm.lang.operand import Template
+    from netqasm.lang.subroutine import Subroutine
+    from netqasm.lang.instr import vanilla as _vanilla
+    from netqasm.sdk.transpile import NVSubroutineTranspiler
+    from netqasm.lang.parsing.text import parse_text_subroutine
+
+    def judge_sub(kind, fname, instrs, extra):
+        res.evaluations += 1
+        res.count("hist-sub:" + kind)
+        res.nontrivial.add(("hist-sub", kind, fname, "\n".join(map(str, extra.get("id", [])))))
+        bad = tbt(fname, instrs)
+        if bad is not None:
+            kf = None
+            if fname == "vanilla" and bad.get("stage") == "binary->text":
+                idx = [k for k, i in enumerate(instrs) if type(i).__name__ == "MeasBasisInstruction"]
+                rest = [copy.copy(i) for k, i in enumerate(instrs) if k not in idx]
+                if idx and bad["first"] and bad["first"][0].startswith("meas_basis ") and \
+                        bad["first"][1].startswith("mov ") and tbt(fname, rest) is None:
+                    kf = "F1"
+            res.failures.append({"what": "subroutine printed before it was modified: text no longer agrees with "
+                                         "the current instructions / binary", "kf": kf,
+                                 "input": dict(extra, kind=kind, fl=fname, detail=bad)})
+
+    n_hs = 1500 if thorough else 300
+    for t in range(n_hs):
+        fname = rng.choice(list(H.FLAVOURS))
+        instrs = [copy.copy(H.random_instr(fname, rng)) for _ in range(rng.randrange(1, 12))]
+        sub = Subroutine(instructions=instrs, app_id=0, netqasm_version=(0, 0))
+        before = [X.real_print(i) for i in instrs] if t % 2 else str(sub).split("\n")
+        edits = []
+        for _ in range(rng.randrange(1, 5)):
+            k = rng.randrange(len(instrs))
+            st = [s_ for s_ in X.gen_instr_history(instrs[k], rng, 2) if s_[1][0] == "set"]
+            for u, act in st:
+                X.apply_instr(instrs[k], act, 0)
+                edits.append([k, dict(u, via=act[1])])
+        judge_sub("edit", fname, sub.instructions, {"id": before, "edits": edits})
+    for t in range(200 if thorough else 40):  # templates filled in by instantiate
+        cls = rng.choice([_vanilla.RotXInstruction, _vanilla.RotYInstruction, _vanilla.RotZInstruction])
+        instrs = [H.random_instr("vanilla", rng) for _ in range(rng.randrange(0, 4))]
+        instrs.insert(rng.randrange(len(instrs) + 1),
+                      cls(reg=op.Register(RegisterName.Q, rng.randrange(16)), imm0=Template("n"),
+                          imm1=op.Immediate(rng.randrange(256))))
+        sub = Subroutine(instructions=instrs, netqasm_version=(0, 0))
+        before = str(sub)
+        n = rng.randrange(256)
+        sub.instantiate(0, {"n": n})
+        judge_sub("instantiate", "vanilla", sub.instructions, {"id": [before], "n": n})
+    for t in range(600 if thorough else 120):  # NV transpiler patches branch targets in place
+        src = X.branchy_source(rng)
+        try:
+            sub = parse_text_subroutine(X.PREAMBLE + "\n".join(src), flavour=H.FLAVOURS["vanilla"]())
+            logged = str(sub) + "".join(str(i) + i.debug_str for i in sub.instructions)
+            nvsub = NVSubroutineTranspiler(sub).transpile()
+        except Exception as e:
+            res.count("hist-sub:transpile-raises:" + type(e).__name__)
+            continue
+        judge_sub("transpile", "nv", nvsub.instructions, {"id": src, "source": src})
 
     # -------------------------------------------------- stream C: malformed / differently formed source
     all_mn = sorted({c.mnemonic for f in H.FLAVOURS for c in H.flavour_classes(f)})
